@@ -450,7 +450,10 @@ theorem loadEnumeration (R : Rendering ens ens' T Dom) (x : XmlNode) (hx : Dom x
   simp only [R.findFirst _ x hx]
   cases h1 : Spp.findFirst ens [step "EnumerationList"] x with
   | none => rfl
-  | some l => simp only [Option.map_some, bind, Except.bind, pure, Except.pure, R.elems, List.foldlM_map, R.attr!]
+  | some l =>
+    have hstep : (fun d el => Spp.enumStep enc d (T el)) = Spp.enumStep enc := by
+      funext d el; simp only [Spp.enumStep, R.attr!]
+    simp only [Option.map_some, bind, Except.bind, pure, Except.pure, R.elems, List.foldlM_map, hstep]
 
 theorem loadParameter (R : Rendering ens ens' T Dom) (types : List (String × LPType)) (x : XmlNode) (hx : Dom x) :
     Spp.loadParameter ens' types (T x) = Spp.loadParameter ens types x := by
